@@ -138,7 +138,7 @@ fn main() {
                 .stderr(Stdio::piped());
             if eng == "e4" {
                 cmd.env("VERIF_RUNS_PER_SHARD", std::env::var("VERIF_MIRI_RUNS").unwrap_or_else(|_| "24".to_string()));
-                cmd.env("VERIF_SOFT_BUDGET_S", "1500");
+                cmd.env("VERIF_SOFT_BUDGET_S", "420");
             }
             if eng == "e3" {
                 // AddressSanitizer is ~4x slower: a quarter of the executions
